@@ -111,6 +111,8 @@ class _SourceFileParams(_FileParamsBase):
     def reset(self) -> None:
         self.empty_file = False
         super().reset()
+        # same value as in empty(): the source compares progress against the file size
+        self.file_size = 0
 
 
 @dataclass
